@@ -331,3 +331,38 @@ def look_at(o):
     except Exception:
         pass
     return done
+
+
+_CONTAINERISH = {}
+
+
+def containerish_types():
+    """Application module subclasses that behave as containers of what they hold: a MetaModule 'rack' whose len() is the number
+    of modules inside it and that iterates over them, a Sampler 'kit' that iterates over its samples (both empty - falsy - when
+    new), and a module with an explicit __bool__.  The registry of module classes is left as it was."""
+    import rv.api as api
+    from rv.modules import MODULE_CLASSES
+    if not _CONTAINERISH:
+        originals = dict(MODULE_CLASSES)
+
+        class Rack(api.m.MetaModule):
+            def __len__(self):
+                return len([x for x in self.project.modules[1:] if x is not None])
+
+            def __iter__(self):
+                return iter([x for x in self.project.modules[1:] if x is not None])
+
+        class Kit(api.m.Sampler):
+            def __len__(self):
+                return len([s for s in self.samples if s is not None])
+
+            def __iter__(self):
+                return iter([s for s in self.samples if s is not None])
+
+        class Muted(api.m.Amplifier):
+            def __bool__(self):
+                return self.volume > 0
+        MODULE_CLASSES.clear()
+        MODULE_CLASSES.update(originals)
+        _CONTAINERISH.update(Rack=Rack, Kit=Kit, Muted=Muted)
+    return [_CONTAINERISH["Rack"], _CONTAINERISH["Kit"], lambda **kw: _CONTAINERISH["Muted"](volume=0, **kw)]
